@@ -49,7 +49,8 @@ def body(ctx: H.BaseCtx):
             ctx.fail("type", "output %d is %s" % (i, type(o).__name__))
             continue
         exp = numpy.broadcast_to(m, bshape) if aligns_shape else m
-        ctx.expect_model(o, exp, "output %d" % i)
+        # dtype-edge cases hold exactly representable literals only: no tolerance (alignment performs no arithmetic)
+        ctx.expect_model(o, exp, "output %d" % i, rtol=0 if case.get("exact") else None)
         check_invariants(ctx, o, "output %d" % i)
     polys = [o for o in outs if isinstance(o, numpoly.ndpoly)]
     if len(polys) == len(outs):
@@ -152,6 +153,17 @@ def gen_cases(tier: str, seed: int) -> List[Dict]:
                     # a cleaned input would itself lose its unused names under this setting: build raw
                     operands = [dict(o, mode="raw") if o.get("kind", "poly") == "poly" else o for o in operands]
                 cases.append({"id": "%s-%03d-%s" % (PROP, n, fn), "op": fn, "fn": fn, "operands": operands, "options": opt, "limits": lim})
+    # native dtype layer ("arbitrary dtypes"): literal coefficients at the edges of each dtype; alignment must hand every value back
+    # exactly, whatever it has to broadcast / widen.  (Symbolically these are ordinary exact numbers.)
+    dts = ["uint64", "int64", "uint32", "int32", "uint16", "int16", "uint8", "int8", "bool", "float32", "float16", "float64"]
+    for dt in dts if not quick else rng.sample(dts[2:], 3) + ["uint64", "int64"]:
+        for fn in FUNCS:
+            # shapes under which *every* operand has to be broadcast by the shape-aligning functions
+            a = S.extreme_poly_spec(("q0", "q2"), [[0, 0], [1, 0], [0, 2]], (1, 2), dt, rng)
+            b = S.extreme_poly_spec(("q1",), [[0], [3]], (2, 1), dt, rng)
+            c = {"kind": "array", "shape": [2], "slots": [rng.choice(S.dtype_extremes(dt)) for _ in range(2)], "dtype": dt}
+            n += 1
+            cases.append({"id": "%s-%03d-%s-dtype-%s" % (PROP, n, fn, dt), "op": fn, "fn": fn, "operands": [a, b] + ([c] if rng.random() < 0.5 else []), "exact": True, "limits": lim})
     # already aligned arguments (internal aliasing possible)
     for fn in FUNCS:
         names = ("q0", "q1")
